@@ -1186,15 +1186,24 @@ for s in json.load(open(sys.argv[1])):
         g = pickle_fuzzer.Generator(protocol=s['protocol'], seed=s['seed']) if s['seed'] is not None else pickle_fuzzer.Generator(s['protocol'])
     if s['range']:
         g.set_opcode_range(*s['range'])
-    res = []
-    for c in s['calls']:
+    def do(c, g, pm):
         if c[0] == 'g':
-            res.append(g.generate().hex())
-        elif c[0] == 'b':
-            res.append(g.generate_from_bytes(bytes.fromhex(c[1])).hex())
-        else:
-            res.append(pm.mutate(bytes.fromhex(c[1]), c[2]).hex())
+            return g.generate().hex()
+        if c[0] == 'b':
+            return g.generate_from_bytes(bytes.fromhex(c[1])).hex()
+        return pm.mutate(bytes.fromhex(c[1]), c[2]).hex()
+    res = [do(c, g, pm if use_mut else None) for c in s['calls']]
     out[s['id']] = res
+    # C08 on the Python objects themselves: the last call of the sequence on a FRESH object with the same settings
+    if use_mut:
+        pm2 = PickleMutator(protocol=s['protocol'], seed=s['seed'])
+        g2 = pm2.generator
+    else:
+        pm2 = None
+        g2 = pickle_fuzzer.Generator(protocol=s['protocol'], seed=s['seed']) if s['seed'] is not None else pickle_fuzzer.Generator(s['protocol'])
+    if s['range']:
+        g2.set_opcode_range(*s['range'])
+    out[s['id'] + ':fresh'] = do(s['calls'][-1], g2, pm2)
 json.dump(out, sys.stdout)
 """ % (os.path.join(PYPKG, 'stub'), PYPKG))
     sp = os.path.join(tmp, 'seqs.json')
@@ -1212,6 +1221,10 @@ json.dump(out, sys.stdout)
             for k_, c in enumerate(sq['calls']):
                 if c[0] != 'm':
                     fronts.append((sq['id'], what + ' [call %d]' % k_, hist_cases[int(sq['id'][1:])].split(' hist=')[0], bytes.fromhex(got[sq['id']][k_])))
+            if got.get(sq['id'] + ':fresh') is not None and got[sq['id']] and got[sq['id']][-1] != got[sq['id'] + ':fresh']:
+                props.append({'id': sq['id'], 'prop': 'C08', 'detail': 'the last call returns %s... after the earlier calls of the sequence but %s... on a fresh object with the same settings' % (
+                    got[sq['id']][-1][:32], got[sq['id'] + ':fresh'][:32])})
+                specs[sq['id']] = what
             for k_, c in enumerate(sq['calls']):
                 e = exp_h.get(sq['id'], [])[k_] if k_ < len(exp_h.get(sq['id'], [])) else None
                 if c[0] == 'm' and e is not None:
